@@ -3,7 +3,7 @@ from vcommon import *
 import scen_common, prop_mu_family
 
 PID = "C13"
-PROP_V = ["Props/Properties_C13.v", "Props/Properties_C13b.v"]
+PROP_V = ["Props/Properties_C13.v", "Props/Properties_C13b.v", "Props/Properties_C13r.v"]
 GEN_MODULES = ["Consts", "Sites"]
 FLOW_FILES = ['mu.c']
 REPLAY_HINT = "VRT_SEED=<seed> [env] _work/h/<scenario>: the arena unmaps freed blocks (UAF) and the runtime knows every thread's parked stack pointer (DEADSTACK)"
@@ -20,10 +20,15 @@ PARTIAL = ["Properties_C13b proves by computation over the regenerated Gen/Flow.
            "that the record is alive in the model; C13_psem_read_before_store and C13_v_touches_nothing show that wake_waiters' store step has r in its footprint "
            "and hands the semaphore over in the pc, and that the V step touches no record.  Only ATOMIC accesses (the `waiting` word) are in the trace; plain "
            "accesses (sem, flags, dll links) remain with the arena and dead-stack oracles.  Cancellable waits' on-stack records (sem_wait.c) have no theorem",
-           "mutex half: proved as the two lemmas the refcount argument needs (C13_last_cas, C13_pinned, C13_fast_release_is_last) over the "
-           "condition-free MuModel; the refcount theorem with an explicit free operation and the reader-mode variant (design finding F5: "
-           "cv broadcast under a read lock with only nsync_wait_n records leaves MU_WAITING set over an empty queue) are decided by the arena "
-           "oracle, not by a theorem",
+           "mutex half, THE REFCOUNT THEOREM (Properties_C13r over Model/MuRefModel.v, a wrapper that steps MuModel unchanged and adds refs, a ghost "
+           "`freed` and a ghost `bad` set by any step that accesses mu->word / mu->waiters after the free): for any number of threads (< 2^24 - 1), any "
+           "extra lock / rlock / trylock rounds before the decrement round and any schedule, the pattern lock; last = (--refs == 0); unlock; if last free "
+           "never sets `bad` (C13r_no_touch_after_free); once freed every other thread is Idle or in the post-last-CAS tail that touches only waiter "
+           "records (C13r_tail_after_free, non-vacuous: C13r_tail_example frees while another thread is still at its V); the sound read-mode pattern "
+           "(decrement after runlock returned) is C13r_reader_variant; the in-lock read-mode decrement is refuted as a CLIENT error "
+           "(C13r_reader_inlock_refuted: the object is freed while another reader still holds its own read lock -- the withdrawn design finding F5).  "
+           "Limits: condition-free MuModel (a thread that meets MU_CONDITION crashes in the model and keeps its reference; the refcount pattern around "
+           "nsync_mu_wait is decided by the arena oracle, refcount VRT_MUWAIT=1); the model's footprint is word + queue, reads included by pc",
            "waker half (cv / note / counter vs nsync_wait_n and cancellable waits): arena + dead-stack oracles over sampled schedules"]
 TRUSTED_BASE = ["replay/waitn_replay.ml footprint comparison: attribution of traced events to model steps by the scenario's brackets and linearization events; stack regions carry no offsets",
                 "harness/rt/vrt.c arena (one mapping per allocation, PROT_NONE after free, never reused) and dead-stack check"]
@@ -31,7 +36,12 @@ TRUSTED_BASE = ["replay/waitn_replay.ml footprint comparison: attribution of tra
 
 def run(tier, seed):
     res = {"violations": [], "broken": [], "coverage": {}}
+    import mu_common
     tie = prop_mu_family.mu_tie(res, tier, seed, 200, 2000)
+    # the reference-count pattern itself (MuRefModel steps MuModel unchanged: the tie of the wrapper is MuModel's, on the pattern's own traces)
+    tie2 = mu_common.tie(res, "mu_replay", "MuModel (refcount pattern)", [("refcount", {}, 150, 1500), ("refcount", {"VRT_RMODE": 1}, 100, 1000)], tier, seed)
+    for k in ("traces_validated_against_impl", "lockstep_model_steps"):
+        tie[k] = tie.get(k, 0) + tie2.get(k, 0)
     specs = [("refcount", {}, 3000, 60000), ("refcount", {"VRT_RMODE": 1}, 1000, 20000), ("refcount", {"VRT_MUWAIT": 1}, 3000, 60000), ("refcount", {"VRT_MUWAIT": 1, "VRT_PLAINPM": 30}, 1500, 30000),
              ("waitn_mix", {"VRT_PLAINPM": 40}, 2000, 60000), ("waitn_mix", {"VRT_AIM": 60}, 4000, 60000), ("waitn_mix", {"VRT_AIM": 60, "VRT_KIND": 1}, 4000, 60000),
              ("waitn_mix", {"VRT_AIM": 60, "VRT_KIND": 2}, 2000, 30000), ("cancel_mix", {"VRT_AIM": 60}, 1500, 30000), ("cv_mix", {"VRT_MODE": 3, "VRT_PLAINPM": 40}, 1000, 20000), ("waitn_mix", {}, 3000, 60000),
